@@ -145,8 +145,9 @@ class Recorder:
         qt = {'none': None, 'QU': DNSQuestionType.QU, 'QM': DNSQuestionType.QM}[forced]
         self.ev('bstart', types=[TYPE_ID[low(t)] for t in st['types']], delay=st['delay'], forced=forced,
                 view=self.cache_view())
+        kw = {'addr': self.sc['addr']} if self.sc.get('addr') else {}
         self.browser = AsyncServiceBrowser(self.host.zc, list(st['types']), listener=BL(), delay=st['delay'],
-                                           question_type=qt)
+                                           question_type=qt, **kw)
 
     async def register(self, st: dict) -> None:
         from zeroconf import ServiceInfo
@@ -166,7 +167,7 @@ class Recorder:
 
     async def main(self) -> None:
         net = self.net
-        self.host = await net.add_host('h', '10.0.0.1')
+        self.host = await net.add_host('h', '10.0.0.1', addr6='fe80::1', layout=self.sc.get('layout', 'single'))
         self.ev('start', t0=net.now())
         for st in self.sc['steps']:
             op = st['op']
@@ -221,6 +222,14 @@ class Recorder:
 
 # ------------------------------------------------------------------------------ generation
 TTLS = [1125, 1125, 1200, 1200, 4500, 4500, 9000, 100, 2000]
+
+
+def with_group(rng: random.Random, sc: dict) -> dict:
+    """Some browsers are given the multicast group explicitly -- the IPv4 or the IPv6 one -- on a dual-stack host."""
+    if rng.random() < 0.15:
+        sc['layout'] = 'dual'
+        sc['addr'] = rng.choice(['ff02::fb', 'ff02::fb', '224.0.0.251'])
+    return sc
 
 
 def gen_c10(rng: random.Random, sid: str, thorough: bool = False) -> dict:
@@ -294,8 +303,8 @@ def gen_c10(rng: random.Random, sid: str, thorough: bool = False) -> dict:
         steps.append(bstep)
     end = max(horizon, start_t + 30000) + delay * 3
     steps.append({'op': 'at', 't': end})
-    return {'id': sid, 'n1': n1, 'n2': n2, 'seed': rng.randint(0, 10 ** 9), 'steps': steps,
-            'rand': rng.choice([None, None, 'lo', 'hi'])}
+    return with_group(rng, {'id': sid, 'n1': n1, 'n2': n2, 'seed': rng.randint(0, 10 ** 9), 'steps': steps,
+                            'rand': rng.choice([None, None, 'lo', 'hi'])})
 
 
 def gen_c13_bigcache(rng: random.Random, sid: str, thorough: bool = False) -> dict:
@@ -335,7 +344,7 @@ def gen_c13_bigcache(rng: random.Random, sid: str, thorough: bool = False) -> di
         steps += [{'op': 'at', 't': bs}, {'op': 'bstart', 'types': [T1, T2] if rng.random() < 0.5 else [T1], 'delay': 10000,
                                         'forced': rng.choice(['none', 'none', 'QM', 'QU'])}]
     steps.append({'op': 'at', 't': bs + 16000})
-    return {'id': sid, 'n1': n1, 'n2': n2, 'seed': rng.randint(0, 10 ** 9), 'steps': steps, 'rand': {'first': r}}
+    return with_group(rng, {'id': sid, 'n1': n1, 'n2': n2, 'seed': rng.randint(0, 10 ** 9), 'steps': steps, 'rand': {'first': r}})
 
 
 def gen_c13_suppress(rng: random.Random, sid: str, thorough: bool = False) -> dict:
@@ -371,4 +380,4 @@ def gen_c13_suppress(rng: random.Random, sid: str, thorough: bool = False) -> di
     for (tt, st) in evs:
         steps += [{'op': 'at', 't': tt}, st]
     steps.append({'op': 'at', 't': bs + 16000})
-    return {'id': sid, 'n1': n1, 'n2': n2, 'seed': rng.randint(0, 10 ** 9), 'steps': steps, 'rand': {'first': r}}
+    return with_group(rng, {'id': sid, 'n1': n1, 'n2': n2, 'seed': rng.randint(0, 10 ** 9), 'steps': steps, 'rand': {'first': r}})
